@@ -246,7 +246,7 @@ func w1Run(t *testing.T, r *verifsim.Run) {
 	cfg.shortWindow = w1Pick(c, "short_window", data_model.MaxShortWindow, data_model.MaxShortWindow, 3, 2)
 	cfg.inserters = w1Pick(c, "inserters", 4, 2, 1)
 	cfg.saveImm = c.Intn(2, "save_immediately") == 1
-	cfg.receiveBudget = c.Intn(4, "receive_budget") == 3
+	cfg.receiveBudget = false // per-metric receive budgets decay while responses are missing and then bind on the agent (outside C03's premise)
 	cfg.keys = 1 + c.Intn(4, "keys")
 	cfg.faultsStop = cfg.runLen
 	if cfg.faulty {
